@@ -45,6 +45,7 @@ from spyne.model import ModelBase, XmlAttribute, SimpleModel, Null, \
     ByteArray, File, ComplexModelBase, AnyXml, AnyHtml, Unicode, Decimal, \
     Double, Integer, Time, DateTime, Uuid, Duration, Boolean, AnyDict, \
     AnyUri, PushBase, Date
+from spyne.model.enum import EnumBase
 from spyne.model.relational import FileData
 
 from spyne.const.http import HTTP_400, HTTP_401, HTTP_404, HTTP_405, HTTP_413, \
@@ -107,6 +108,7 @@ class OutProtocolBase(ProtocolMixin):
             AnyXml: self.any_xml_to_bytes,
             Unicode: self.unicode_to_bytes,
             Boolean: self.boolean_to_bytes,
+            EnumBase: self.enum_base_to_bytes,
             Decimal: self.decimal_to_bytes,
             Integer: self.integer_to_bytes,
             AnyHtml: self.any_html_to_bytes,
@@ -649,6 +651,10 @@ class OutProtocolBase(ProtocolMixin):
 
     def model_base_to_bytes_iterable(self, cls, value, **kwargs):
         return cls.to_bytes_iterable(value, **kwargs)
+
+    def enum_base_to_bytes(self, cls, value, **_):
+        # the name of the value, as in the text form
+        return six.text_type(value).encode('utf8')
 
     def model_base_to_bytes(self, cls, value, **kwargs):
         return cls.to_bytes(value, **kwargs)
